@@ -448,6 +448,8 @@ func (p *eparser) primary() *CExpr {
 	case t.kind == "str":
 		p.next()
 		return &CExpr{Kind: "str", Name: t.s}
+	case t.kind == "id" && (t.s == "forall" || t.s == "exists"):
+		return p.expr()
 	case t.kind == "id":
 		p.next()
 		return &CExpr{Kind: "ident", Name: t.s}
